@@ -408,6 +408,54 @@ def falsify(ctx, hints):
                     except Exception as e:  # noqa
                         fails.append(Failure(f"keyword:{kw}:{kind}:raises", f"{kind}(x, '{kw}') raises {type(e).__name__}: {e}"[:200],
                                              {"series": spec, "shift": kw}))
+        # 1c. daily keyword shifts against CPython's calendar; log changes on data with large day-on-day ratios
+        if freq == 365 and length >= 3:
+            import datetime as _dtm
+            ser = [spec["start"] + i for i in range(length)]
+            # let the sample straddle a year boundary so that soy/eopy/tty references exist inside it
+            d0 = _dtm.date(rng.choice([2019, 2020, 2023, 2024, 2000, 1999]), 12, 31 - rng.randint(0, length - 2))
+            specd = {**spec, "start": d0.toordinal()}
+            xd = sc.mk_series(specd)
+            serd = [specd["start"] + i for i in range(length)]
+            vald = {t: X[i] for i, t in enumerate(serd)}
+            for kw in ("yoy", "soy", "eopy", "tty"):
+                for kind in ("diff", "roc"):
+                    try:
+                        y = getattr(ir, kind)(xd, kw)
+                        info["formula_checks"] += 1
+                        for t in serd:
+                            dt_ = _dtm.date.fromordinal(t)
+                            ref = {"yoy": t - 365, "soy": _dtm.date(dt_.year, 1, 1).toordinal(),
+                                   "eopy": _dtm.date(dt_.year - 1, 12, 31).toordinal(),
+                                   "tty": (t - 1) if (dt_.month, dt_.day) != (1, 1) else None}[kw]
+                            if ref is None or ref not in vald:
+                                continue
+                            want = _formula(kind, vald[t], vald[ref], f)
+                            got = y.get_data(sc.mk_period(365, t))[0]
+                            if not _close(got, want):
+                                fails.append(Failure(f"keyword:{kw}:{kind}:daily", f"{kind}(x, '{kw}') on daily data at {dt_} is not f(x_t, x_ref) with the documented reference day",
+                                                     {"series": specd, "shift": kw, "t": str(dt_), "ref": str(_dtm.date.fromordinal(ref))},
+                                                     got.tolist(), np.asarray(want).tolist(), f"irispie.{kind}(x, '{kw}')"))
+                                raise StopIteration
+                    except StopIteration:
+                        pass
+                    except Exception as e:  # noqa
+                        fails.append(Failure(f"keyword:{kw}:{kind}:daily:raises", f"{kind}(x, '{kw}') on daily data raises {type(e).__name__}: {e}"[:200],
+                                             {"series": specd, "shift": kw}))
+        if it % 3 == 0:
+            jump = {**spec, "rows": [[float(rng.choice([0.02, 0.1, 1.0, 9.0, 40.0])) for _ in range(nv)] for _ in range(length)]}
+            xj = sc.mk_series(jump); XJ = np.array(jump["rows"])
+            for kind in ("diff_log", "adiff_log"):
+                try:
+                    y = getattr(ir, kind)(xj)
+                    got = y.get_data(ir.Span(xj.start + 1, xj.end))
+                    want = _formula(kind, XJ[1:], XJ[:-1], f)
+                    info["formula_checks"] += 1
+                    if not _close(got, want):
+                        fails.append(Failure(f"formula:{kind}:jumps", f"{kind} differs from its documented formula on data with large period-on-period ratios",
+                                             {"series": jump}, got.tolist(), want.tolist(), f"irispie.{kind}(x)"))
+                except Exception as e:  # noqa
+                    fails.append(Failure(f"formula:{kind}:jumps:raises", f"{kind} raises {type(e).__name__}: {e}", {"series": jump}))
         # 2. cumulation inverts change, forward and backward, original series as initial condition
         for base, cum in (("diff", "cum_diff"), ("diff_log", "cum_diff_log"), ("pct", "cum_pct"), ("roc", "cum_roc")):
             for direction in ("forward", "backward"):
